@@ -234,7 +234,7 @@ def main(tier: str) -> int:
             corr_fail.append(mt)
         if code & 2:
             n_spec_fail += 1
-            if in_kf:
+            if in_kf and not (code & 1):   # known = inside a listed class AND the failure the model predicts
                 n_kf += 1
                 if code & 4:
                     kf_hit["KF_C04_1"] += 1
